@@ -60,6 +60,13 @@ Qed.
 Lemma In_lic_ids l k v : In (k, v) l -> In (fst k) (lic_ids l).
 Proof. intros H. unfold lic_ids. apply in_map_iff. exists (k, v). split; auto. Qed.
 
+Lemma lic_get_none_In l k v : lic_get l k = None -> ~ In (k, v) l.
+Proof.
+  induction l as [|[k' v'] r IH]; simpl; intros H; [tauto|].
+  destruct (key_eqb k' k) eqn:E; [discriminate|].
+  intros [Hin|Hin]; [inversion Hin; subst; rewrite key_eqb_refl in E; discriminate | now apply IH].
+Qed.
+
 Lemma lic_get_id_notin l k : ~ In (fst k) (lic_ids l) -> lic_get l k = None.
 Proof. intros H. apply lic_get_none_notin. intros v Hv. apply H. eapply In_lic_ids; eauto. Qed.
 
@@ -216,14 +223,15 @@ Proof.
   intros Hesc. unfold activate_raw.
   destruct (lic_get (lics s) who) as [l|] eqn:E1; [|intros H; inversion H].
   destruct (negb (str_valid who)) eqn:E2; [intros H; inversion H|].
-  destruct (acct s (fst who)) as [[| |]|] eqn:E3; try (intros H; inversion H; fail).
+  destruct (acct s (fst who)) as [[| |]|] eqn:E3;
+    [ | intros H; inversion H | intros H; inversion H | intros H; inversion H ].
   destruct ((add_months (now s) (l_months l) <? 0) || (l_amount l <=? 0)) eqn:E4; [intros H; inversion H|].
   destruct (fst who =? escrow) eqn:E5; [intros H; inversion H|].
   destruct (send _ _ _ _ _) as [s2|e] eqn:E6; [|intros H; inversion H].
   intros H; inversion H; subst; clear H.
   apply send_inl in E6 as (Hpos & Hle & Hbal & Hacct & Hnow & Hlics & Hcl & Hgr & Hfg & Hfu & Hco & Hgi).
   apply negb_false_iff in E2. apply Z.eqb_neq in E5.
-  exists l. simpl in *.
+  exists l. cbn [now lics clients grants feegranter funders contracts gifts bal acct set_acct set_bal set_lics set_clients] in *.
   assert (Hlk : locked (set_acct s (upd1 (acct s) (fst who)
              (Some (Vesting (now s) (add_months (now s) (l_months l)) (l_amount l) (l_denom l))))) escrow (l_denom l) = 0).
   { assert (E : (escrow =? fst who) = false) by (apply Z.eqb_neq; congruence).
@@ -502,35 +510,22 @@ Proof.
 Qed.
 
 (** gifts never shrink *)
-Lemma step_gifts s o d : gifts s d <= gifts (fst (step s o)) d.
+Lemma step_gifts s o d : acct s escrow = Some Module -> gifts s d <= gifts (fst (step s o)) d.
 Proof.
-  destruct (step s o) as [s' out] eqn:E. destruct out;
+  intros He. destruct (step s o) as [s' out] eqn:E. destruct out;
     try (pose proof (failed_op_is_noop s o) as Hf; rewrite E in Hf; simpl in *; rewrite Hf; [lia | discriminate]).
-  simpl. destruct o; simpl in E.
-  - apply step_ok_atomically in E. unfold create_licence_raw in E.
-    repeat match type of E with
-    | (if ?c then _ else _) = _ => destruct c; [inversion E|]
-    | match ?c with _ => _ end = _ => destruct c eqn:?; try (inversion E; fail)
-    end. inversion E; subst. simpl.
-    match goal with H : send _ _ _ _ _ = inl _ |- _ => apply send_inl in H as (_&_&_&_&_&_&_&_&_&_&_&Hg) end.
-    rewrite Hg. simpl. lia.
-  - apply step_ok_atomically in E. unfold activate_raw in E.
-    repeat match type of E with
-    | (if ?c then _ else _) = _ => destruct c; [inversion E|]
-    | match ?c with _ => _ end = _ => destruct c eqn:?; try (inversion E; fail)
-    end. inversion E; subst. simpl.
-    match goal with H : send _ _ _ _ _ = inl _ |- _ => apply send_inl in H as (_&_&_&_&_&_&_&_&_&_&_&Hg) end.
-    rewrite Hg. simpl. lia.
+  simpl.
+  assert (Hcreate : forall cr cl d0 amt m s1, create_licence_raw cr cl d0 amt m s = (s1, Ok) -> gifts s1 = gifts s).
+  { intros cr cl d0 amt m s1 Hc. apply (create_ok _ _ _ _ _ _ _ He) in Hc as (_ & _ & _ & _ & _ & _ & _ & _ & _ & _ & _ & Hcfg).
+    now destruct Hcfg as (_ & _ & _ & _ & _ & Hg). }
+  destruct o; simpl in E.
+  - apply step_ok_atomically in E. rewrite (Hcreate _ _ _ _ _ _ E). lia.
+  - apply step_ok_atomically in E. apply (activate_ok _ _ _ He) in E as (l0 & Hx).
+    destruct Hx as (_ & _ & _ & _ & _ & _ & _ & _ & _ & _ & _ & _ & _ & _ & _ & Hg). rewrite Hg. lia.
   - destruct (clients s who) as [[a l]|]; inversion E; subst. simpl. lia.
   - apply step_ok_atomically in E. apply handle_sale_ok in E as [_ E].
     apply sale_ok in E as (_ & _ & g & fs & f & s1 & _ & _ & _ & _ & Hc & _ & ->). simpl.
-    unfold create_licence_raw in Hc.
-    repeat match type of Hc with
-    | (if ?c then _ else _) = _ => destruct c; [inversion Hc|]
-    | match ?c with _ => _ end = _ => destruct c eqn:?; try (inversion Hc; fail)
-    end. inversion Hc; subst. simpl.
-    match goal with H : send _ _ _ _ _ = inl _ |- _ => apply send_inl in H as (_&_&_&_&_&_&_&_&_&_&_&Hg) end.
-    rewrite Hg. simpl. lia.
+    rewrite (Hcreate _ _ _ _ _ _ Hc). lia.
   - destruct (send s from to d0 amt) as [s1|e] eqn:Es; inversion E; subst. clear E.
     apply send_inl in Es as (Hpos & _ & _ & _ & _ & _ & _ & _ & _ & _ & _ & Hgi).
     destruct (to =? escrow); simpl; rewrite Hgi; [|lia].
@@ -542,10 +537,10 @@ Proof.
   - inversion E; subst. destruct (dt <? 0); simpl; lia.
 Qed.
 
-Lemma run_gifts ops : forall s d, gifts s d <= gifts (run s ops) d.
+Lemma run_gifts ops : forall s d, inv_struct s -> gifts s d <= gifts (run s ops) d.
 Proof.
-  induction ops as [|o r IH]; intros s d; simpl; [lia|].
-  pose proof (step_gifts s o d). pose proof (IH (fst (step s o)) d). lia.
+  induction ops as [|o r IH]; intros s d Hs; simpl; [lia|].
+  pose proof (step_gifts s o d (is_escrow _ Hs)). pose proof (IH (fst (step s o)) d (step_struct s o Hs)). lia.
 Qed.
 
 (** C18, clause 1 *)
@@ -561,7 +556,7 @@ Proof.
   repeat split.
   - apply Hb.
   - rewrite Hb. specialize (Hg d). lia.
-  - apply run_gifts.
+  - apply run_gifts. apply Hi.
   - intros H0. rewrite Hb. lia.
 Qed.
 
@@ -738,15 +733,330 @@ Proof.
     rewrite Hlics. simpl. destruct (key_eqb cl k) eqn:Ek; [|now apply Hn].
     apply key_eqb_eq in Ek; subst cl. rewrite Hk in Hacc. contradiction. }
   pose proof (only_creation_adds_licences s o He) as Hinc. rewrite E in Hinc. simpl in Hinc.
+  assert (Hgen : (forall client, ~ creates o client) -> False).
+  { intros Hnc. apply lic_get_In in Eg. apply (Hinc Hnc) in Eg.
+    revert Eg. apply lic_get_none_In. now apply Hn. }
   destruct o; simpl in E;
-    try (apply lic_get_In in Eg; apply Hinc in Eg;
-         [ assert (Hx : lic_get (lics s) k = None) by now apply Hn;
-           destruct Hs as [_ Hl Hnd];
-           apply lic_get_none_notin with (l := lics s) (k := k) in Hx || idtac;
-           revert Eg; apply (lic_get_none_notin_inv (lics s) k); now apply Hn
-         | intros client [(cr & d' & amt' & m' & Hc)|(ch & c & am & Hc)]; discriminate ]; fail).
+    try (apply Hgen; intros client [(cr & d' & amt' & m' & Hc)|(ch & c & am & Hc)]; discriminate).
   - apply step_ok_atomically in E. rewrite (Hcreate _ _ _ _ _ _ E) in Eg. discriminate.
   - apply step_ok_atomically in E. apply handle_sale_ok in E as [_ E].
     apply sale_ok in E as (_ & _ & g & fs & f & s1 & _ & _ & _ & _ & Hc & _ & ->). simpl in Eg.
     rewrite (Hcreate _ _ _ _ _ _ Hc) in Eg. discriminate.
 Qed.
+
+Definition activation_of (a : addr) (e : op * outcome) : bool :=
+  match e with
+  | (Register who, Ok) => fst who =? a
+  | _ => false
+  end.
+
+Lemma trace_cons s o r : trace s (o :: r) = (o, snd (step s o)) :: trace (fst (step s o)) r.
+Proof. simpl. destruct (step s o) as [s' out]. reflexivity. Qed.
+
+Lemma spent_no_activation ops : forall s a, inv_struct s -> spent a s ->
+  filter (activation_of a) (trace s ops) = [].
+Proof.
+  induction ops as [|o r IH]; intros s a Hs Hsp; [reflexivity|].
+  rewrite trace_cons. cbn [filter].
+  assert (Hno : activation_of a (o, snd (step s o)) = false).
+  { destruct o; try reflexivity.
+    change (activation_of a (Register who, snd (step s (Register who))))
+      with (match snd (step s (Register who)) with Ok => fst who =? a | _ => false end).
+    destruct (snd (step s (Register who))) eqn:Eo; try reflexivity.
+    destruct (fst who =? a) eqn:Ea; [|reflexivity]. apply Z.eqb_eq in Ea. exfalso.
+    destruct (step s (Register who)) as [s' out] eqn:E. simpl in Eo; subst out.
+    simpl in E. apply step_ok_atomically in E.
+    apply (activate_ok _ _ _ (is_escrow _ Hs)) in E as (l & Hget & _).
+    destruct Hsp as [_ Hn]. rewrite (Hn who Ea) in Hget. discriminate. }
+  rewrite Hno. apply IH; [now apply step_struct | now apply step_spent].
+Qed.
+
+Lemma activation_spends s s' who : inv_struct s -> step s (Register who) = (s', Ok) -> spent (fst who) s'.
+Proof.
+  intros Hs E. pose proof Hs as [He Hl Hn].
+  simpl in E. apply step_ok_atomically in E.
+  apply (activate_ok _ _ _ He) in E as (l0 & Hget & _ & _ & _ & _ & _ & _ & Hacct & Hlics & _).
+  split.
+  - rewrite Hacct. unfold upd1. rewrite Z.eqb_refl. discriminate.
+  - intros k Hk. rewrite Hlics. apply lic_get_none_notin. intros v Hin.
+    apply In_lic_del in Hin as [Hin Hne]. simpl in Hne.
+    apply lic_get_In in Hget.
+    pose proof (nodup_ids_inj _ _ _ _ _ Hn Hin Hget Hk) as Heq. inversion Heq. contradiction.
+Qed.
+
+(** C18, clause 3: along any history an address is activated at most once *)
+Theorem activation_at_most_once_thm : forall (ops : list op) (s0 : state) (a : addr),
+  inv_struct s0 -> (length (filter (activation_of a) (trace s0 ops)) <= 1)%nat.
+Proof.
+  induction ops as [|o r IH]; intros s0 a Hs; [simpl; lia|].
+  rewrite trace_cons. cbn [filter].
+  destruct (activation_of a (o, snd (step s0 o))) eqn:Ea.
+  - destruct o; try discriminate.
+    change (activation_of a (Register who, snd (step s0 (Register who))))
+      with (match snd (step s0 (Register who)) with Ok => fst who =? a | _ => false end) in Ea.
+    destruct (step s0 (Register who)) as [s' out] eqn:E. cbn [snd] in Ea. destruct out; try discriminate.
+    apply Z.eqb_eq in Ea. subst a. simpl fst.
+    rewrite spent_no_activation; [simpl; lia | | ].
+    + pose proof (step_struct s0 (Register who) Hs) as H. now rewrite E in H.
+    + eapply activation_spends; eauto.
+  - apply IH. now apply step_struct.
+Qed.
+
+(** ---- C18, clause 5: the sale path ---- *)
+Theorem sale_all_or_nothing_thm : forall (s : state) (chain contract : Z) (client : key) (amount : Z),
+  let r := step s (Sale chain contract client amount) in
+  (snd r <> Ok -> fst r = s) /\
+  (acct s escrow = Some Module -> snd r = Ok ->
+     contracts s chain = Some contract /\
+     0 < amount /\
+     exists g fs f, feegranter s = Some g /\ funders s = Some fs /\ In f fs /\
+       amount * Gen.C18.sale_multiplier <= bal s f bond - locked s f bond /\
+       acct s (fst client) = None /\ lic_get (lics s) client = None /\
+       lics (fst r) = (client, {| l_denom := bond; l_amount := amount * Gen.C18.sale_multiplier;
+                                  l_months := Gen.C18.sale_vesting_months |}) :: lics s /\
+       grants s g (fst client) = false /\ grants (fst r) g (fst client) = true /\
+       acct (fst r) = upd1 (acct s) (fst client) (Some Base) /\
+       bal (fst r) = sent_bal s f escrow bond (amount * Gen.C18.sale_multiplier)).
+Proof.
+  intros s chain contract client amount r. split; [apply failed_op_is_noop|].
+  intros He Hok. subst r. destruct (step s (Sale chain contract client amount)) as [s' out] eqn:E.
+  simpl in Hok; subst out. simpl fst. simpl in E. apply step_ok_atomically in E.
+  apply handle_sale_ok in E as [Hc E]. split; [exact Hc|].
+  apply sale_ok in E as (Hnn & Hlt & g & fs & f & s1 & Hfg & Hfu & Hin & Hbalf & Hcr & Hgr & ->).
+  apply (create_ok _ _ _ _ _ _ _ He) in Hcr
+    as (_ & _ & _ & Hnone & Hacc & Hpos & Hle & Hbal & Hacct & Hlics & Hgr1 & _).
+  simpl in Hle.
+  split. { assert (0 < Gen.C18.sale_multiplier) by reflexivity. nia. }
+  exists g, fs, f. repeat split; auto.
+  - rewrite <- Hgr1. exact Hgr.
+  - simpl. now rewrite !Z.eqb_refl.
+Qed.
+
+(** ---- C18, clause 4b: the vesting schedule (SDK formula, LegacyDec rounding) ---- *)
+Section Vesting.
+Local Notation P := 1000000000000000000.
+
+Lemma cr_near d : 0 <= d -> 2 * (chop_round d * P) - P <= 2 * d <= 2 * (chop_round d * P) + P.
+Proof.
+  intros Hd. unfold chop_round. assert (E0 : (d <? 0) = false) by (apply Z.ltb_ge; lia). rewrite E0.
+  unfold chop_round_pos, prec, half_prec.
+  pose proof (Z.div_mod d P ltac:(discriminate)) as E.
+  pose proof (Z.mod_pos_bound d P ltac:(reflexivity)) as B.
+  destruct (d mod P =? 0) eqn:Z0.
+  - apply Z.eqb_eq in Z0. lia.
+  - destruct (d mod P ?= 500000000000000000) eqn:C.
+    + apply Z.compare_eq in C. destruct (Z.even (d / P)); lia.
+    + rewrite Z.compare_lt_iff in C. lia.
+    + rewrite Z.compare_gt_iff in C. lia.
+Qed.
+
+Lemma cr_mono a b : 0 <= a <= b -> chop_round a <= chop_round b.
+Proof.
+  intros H. destruct (Z.eq_dec a b) as [->|Hne]; [lia|].
+  pose proof (cr_near a ltac:(lia)). pose proof (cr_near b ltac:(lia)). lia.
+Qed.
+
+Lemma cr_exact k : 0 <= k -> chop_round (k * P) = k.
+Proof. intros H. pose proof (cr_near (k * P) ltac:(lia)). lia. Qed.
+
+Lemma cr_nonneg d : 0 <= d -> 0 <= chop_round d.
+Proof. intros H. pose proof (cr_near d H). lia. Qed.
+
+(** the vesting scalar s = Dec(x)/Dec(y), raw value *)
+Definition scalar (x y : Z) : Z := Dec.quo (Dec.of_int x) (Dec.of_int y).
+
+Lemma scalar_eq x y : 0 <= x -> 0 < y -> scalar x y = chop_round ((x * P * P * P) / (y * P)).
+Proof.
+  intros Hx Hy. unfold scalar, Dec.quo, Dec.of_int, prec. rewrite Z.quot_div_nonneg by lia. reflexivity.
+Qed.
+
+Lemma scalar_range x y : 0 <= x -> x < y -> 0 <= scalar x y <= P.
+Proof.
+  intros Hx Hy. rewrite scalar_eq by lia.
+  assert (Hq0 : 0 <= (x * P * P * P) / (y * P)) by (apply Z.div_pos; lia).
+  assert (Hq1 : (x * P * P * P) / (y * P) <= P * P).
+  { apply Z.lt_le_incl. apply Z.div_lt_upper_bound; lia. }
+  split; [now apply cr_nonneg|].
+  apply Z.le_trans with (chop_round (P * P)); [apply cr_mono; lia | rewrite (cr_exact P) by lia; lia].
+Qed.
+
+Lemma scalar_mono x1 x2 y : 0 <= x1 <= x2 -> 0 < y -> scalar x1 y <= scalar x2 y.
+Proof.
+  intros Hx Hy. rewrite !scalar_eq by lia. apply cr_mono. split.
+  - apply Z.div_pos; lia.
+  - apply Z.div_le_mono; lia.
+Qed.
+
+Definition vest_mid (orig s : Z) : Z := Dec.chop_round (Dec.mul (Dec.of_int orig) s).
+
+Lemma vest_mid_range orig s : 0 <= orig -> 0 <= s <= P -> 0 <= vest_mid orig s <= orig.
+Proof.
+  intros Ho Hs. unfold vest_mid, Dec.mul, Dec.of_int, prec.
+  assert (H0 : 0 <= orig * P * s) by (apply Z.mul_nonneg_nonneg; lia).
+  assert (H1 : orig * P * s <= orig * P * P) by (apply Z.mul_le_mono_nonneg_l; lia).
+  assert (Hm0 : 0 <= chop_round (orig * P * s)) by now apply cr_nonneg.
+  assert (Hm1 : chop_round (orig * P * s) <= orig * P).
+  { apply Z.le_trans with (chop_round (orig * P * P)); [apply cr_mono; lia | rewrite (cr_exact (orig * P)) by lia; lia]. }
+  split; [now apply cr_nonneg|].
+  apply Z.le_trans with (chop_round (orig * P)); [apply cr_mono; lia | rewrite (cr_exact orig) by lia; lia].
+Qed.
+
+Lemma vest_mid_mono orig s1 s2 : 0 <= orig -> 0 <= s1 <= s2 -> vest_mid orig s1 <= vest_mid orig s2.
+Proof.
+  intros Ho Hs. unfold vest_mid, Dec.mul, Dec.of_int, prec.
+  assert (H0 : 0 <= orig * P * s1) by (apply Z.mul_nonneg_nonneg; lia).
+  assert (H1 : orig * P * s1 <= orig * P * s2) by (apply Z.mul_le_mono_nonneg_l; lia).
+  apply cr_mono. split; [now apply cr_nonneg|]. apply cr_mono. lia.
+Qed.
+
+Lemma vested_mid st en orig t : st < t -> t < en ->
+  vested st en orig t = vest_mid orig (scalar (t - st) (en - st)).
+Proof.
+  intros H1 H2. unfold vested.
+  assert (E1 : (t <=? st) = false) by (apply Z.leb_gt; lia).
+  assert (E2 : (en <=? t) = false) by (apply Z.leb_gt; lia).
+  rewrite E1, E2. reflexivity.
+Qed.
+
+(** nothing is vested up to the start, everything from the end on, in between the vested amount
+    stays within [0, original] and never decreases *)
+Theorem vesting_schedule_thm : forall (st en orig : Z), 0 <= orig ->
+  (forall t, t <= st -> vested st en orig t = 0) /\
+  (forall t, st < t -> en <= t -> vested st en orig t = orig) /\
+  (forall t, 0 <= vested st en orig t <= orig) /\
+  (forall t t', t <= t' -> vested st en orig t <= vested st en orig t').
+Proof.
+  intros st en orig Ho.
+  assert (A : forall t, t <= st -> vested st en orig t = 0).
+  { intros t H. unfold vested. assert (E : (t <=? st) = true) by (apply Z.leb_le; lia). now rewrite E. }
+  assert (B : forall t, st < t -> en <= t -> vested st en orig t = orig).
+  { intros t H1 H2. unfold vested.
+    assert (E1 : (t <=? st) = false) by (apply Z.leb_gt; lia).
+    assert (E2 : (en <=? t) = true) by (apply Z.leb_le; lia). now rewrite E1, E2. }
+  assert (C : forall t, 0 <= vested st en orig t <= orig).
+  { intros t. destruct (Z_le_gt_dec t st) as [H|H]; [rewrite A by lia; lia|].
+    destruct (Z_le_gt_dec en t) as [H2|H2]; [rewrite B by lia; lia|].
+    rewrite vested_mid by lia. apply vest_mid_range; [lia|]. apply scalar_range; lia. }
+  repeat split; auto; try apply C.
+  intros t t' Hle.
+  destruct (Z_le_gt_dec t st) as [H|H]; [rewrite (A t) by lia; apply C|].
+  destruct (Z_le_gt_dec en t') as [H2|H2]; [rewrite (B t') by lia; apply C|].
+  rewrite !vested_mid by lia. apply vest_mid_mono; [lia|]. split.
+  - apply scalar_range; lia.
+  - apply scalar_mono; lia.
+Qed.
+
+(** what the bank treats as locked on an activated account is original − vested *)
+Lemma locked_vesting s a st en orig d :
+  acct s a = Some (Vesting st en orig d) -> locked s a d = orig - vested st en orig (now s).
+Proof. intros H. unfold locked. rewrite H. now rewrite Z.eqb_refl. Qed.
+
+End Vesting.
+
+Section VestingLinear.
+Local Notation P := 1000000000000000000.
+(** between start and end the vested amount is the linear share original*(t-start)/(end-start) up to
+    the rounding of the SDK's 18-digit decimals: less than one unit for amounts below 10^18 *)
+Theorem vesting_linear_thm st en orig t : 0 <= orig -> st < t -> t < en ->
+  2 * P * P * Z.abs (vested st en orig t * (en - st) - orig * (t - st))
+    <= (en - st) * (2 * orig + orig * P + P + P * P).
+Proof.
+  intros Ho H1 H2. rewrite vested_mid by lia.
+  set (x := t - st). set (y := en - st). assert (Hx : 0 < x) by (unfold x; lia). assert (Hxy : x < y) by (unfold x, y; lia).
+  clearbody x y. rewrite scalar_eq by lia.
+  unfold vest_mid, Dec.mul, Dec.of_int, prec.
+  set (q := x * P * P * P / (y * P)).
+  assert (Hq : 0 <= x * P * P * P - q * (y * P) < y * P).
+  { unfold q. pose proof (Z.div_mod (x * P * P * P) (y * P) ltac:(lia)) as E.
+    pose proof (Z.mod_pos_bound (x * P * P * P) (y * P) ltac:(lia)) as B. lia. }
+  assert (Hq0 : 0 <= q) by (unfold q; apply Z.div_pos; lia).
+  clearbody q.
+  pose proof (cr_near q Hq0) as Hc. set (S := chop_round q) in *.
+  assert (HS0 : 0 <= S) by (now apply cr_nonneg). clearbody S.
+  assert (Hops : 0 <= orig * P * S) by (apply Z.mul_nonneg_nonneg; lia).
+  pose proof (cr_near _ Hops) as Hb. set (m := chop_round (orig * P * S)) in *.
+  assert (Hm0 : 0 <= m) by (now apply cr_nonneg). clearbody m.
+  pose proof (cr_near m Hm0) as Ha. set (V := chop_round m) in *. clearbody V.
+  (* named error terms *)
+  set (a := V * P - m). set (b := m * P - orig * P * S). set (c := S * P - q). set (e := x * P * P * P - q * (y * P)).
+  assert (Ha' : - P <= 2 * a <= P) by (unfold a; lia).
+  assert (Hb' : - P <= 2 * b <= P) by (unfold b; lia).
+  assert (Hc' : - P <= 2 * c <= P) by (unfold c; lia).
+  assert (He' : 0 <= e < y * P) by (unfold e; lia).
+  assert (Eq : (V * y - orig * x) * (P * P * P) = y * P * (orig * c + b + a * P) - orig * e).
+  { unfold a, b, c, e. ring. }
+  clearbody a b c e.
+  (* products, bounded one at a time *)
+  assert (Hoc : - (orig * P) <= 2 * (orig * c) <= orig * P) by nia.
+  set (oc := orig * c) in *. clearbody oc.
+  set (T := oc + b + a * P) in *.
+  assert (HT : - (orig * P + P + P * P) <= 2 * T <= orig * P + P + P * P) by (unfold T; lia).
+  clearbody T.
+  assert (HyT : - (y * (orig * P + P + P * P)) <= 2 * (y * T) <= y * (orig * P + P + P * P)) by nia.
+  assert (Hoe : 0 <= orig * e <= orig * (y * P)) by nia.
+  set (yT := y * T) in *. set (oe := orig * e) in *.
+  replace (y * P * T) with (P * yT) in Eq by (unfold yT; ring).
+  clearbody yT oe.
+  set (D := V * y - orig * x) in *. clearbody D.
+  replace (y * (orig * P + P + P * P)) with (y * orig * P + y * P + y * P * P) in HyT by ring.
+  replace (orig * (y * P)) with (y * orig * P) in Hoe by ring.
+  replace (y * (2 * orig + orig * P + P + P * P)) with (2 * (y * orig) + y * orig * P + y * P + y * P * P) by ring.
+  set (yo := y * orig) in *. clearbody yo.
+  lia.
+Qed.
+End VestingLinear.
+
+(** ---- non-vacuity: a concrete history ---- *)
+Lemma init_inv t0 b : (forall d, 0 <= b escrow d) -> inv (init t0 b).
+Proof.
+  intros Hb. split; constructor.
+  - reflexivity.
+  - intros k l [].
+  - constructor.
+  - intros d. cbn [init bal lics gifts lic_sum]. lia.
+  - intros d. cbn [init gifts]. apply Hb.
+  - cbn [init funders]. discriminate.
+Qed.
+
+Definition ex_bal : addr -> denom -> Z := fun a d => if (a =? 1) && (d =? 0) then 5000000000 else 0.
+Definition ex_s0 : state := init 1700000000 ex_bal.
+Definition ex_ops : list op :=
+  [ SetContracts [(1, 11)]; SetFeegranter 2; SetFunders [1];
+    AddLicence (1, false) (3, false) 0 1000 3;       (* address 1 pays a licence for address 3 *)
+    Sale 1 11 (4, true) 7;                            (* attested sale of 7 GRAIN for address 4 *)
+    Sale 1 12 (5, false) 7;                           (* wrong contract: refused *)
+    Register (4, false);                              (* other spelling than the licence: refused *)
+    Register (3, false); Register (3, false);         (* activation, then re-activation: refused *)
+    AddLicence (1, false) (3, true) 0 10 1;           (* the address has an account now: refused *)
+    Tick 3974400;                                     (* half of the three months *)
+    Send 1 escrow 0 5 ].                              (* a gift *)
+
+Example ex_inv : inv ex_s0.
+Proof. apply init_inv. intros d. reflexivity. Qed.
+Example ex_wf : Forall op_wf ex_ops.
+Proof. repeat constructor; simpl; try discriminate; intuition discriminate. Qed.
+Example ex_outcomes : map snd (trace ex_s0 ex_ops) =
+  [Ok; Ok; Ok; Ok; Ok; Err EWrongContract; Err ENoLicense; Ok; Err ENoLicense; Err EAccountExists; Ok; Ok].
+Proof. vm_compute. reflexivity. Qed.
+Example ex_escrow :
+  let s := run ex_s0 ex_ops in
+  bal s escrow 0 = 7000005 /\ lic_sum 0 (lics s) = 7000000 /\ gifts s 0 = 5 /\
+  lic_ids (lics s) = [4] /\ grants s 2 4 = true /\
+  acct s 3 = Some (Vesting 1700000000 1707948800 1000 0) /\ bal s 3 0 = 1000 /\
+  locked s 3 0 = 500 /\ bal s 1 0 = 5000000000 - 1000 - 7000000 - 5.
+Proof. vm_compute. repeat split; reflexivity. Qed.
+Example ex_once : length (filter (activation_of 3) (trace ex_s0 ex_ops)) = 1%nat.
+Proof. vm_compute. reflexivity. Qed.
+(** the raw keeper function is not atomic: refused for lack of funds, it leaves the base account behind;
+    the message/attestation wrappers are what make the operation all-or-nothing *)
+Example ex_raw_not_atomic :
+  let r := create_licence_raw (2, false) (6, false) 0 10 1 ex_s0 in
+  snd r = Err EInsufficientFunds /\ acct (fst r) 6 = Some Base /\ acct ex_s0 6 = None /\
+  fst (step ex_s0 (AddLicence (2, false) (6, false) 0 10 1)) = ex_s0.
+Proof. vm_compute. repeat split; reflexivity. Qed.
+Example ex_vested_half : vested 1700000000 1707948800 1000 (1700000000 + 3974400) = 500 /\
+  vested 0 3 10 1 = 3 /\ vested 0 3 10 2 = 7 /\ vested 5 5 10 5 = 0 /\ vested 5 5 10 6 = 10.
+Proof. vm_compute. repeat split; reflexivity. Qed.
+Example ex_add_months : add_months 1706745599 1 = 1709423999   (* 2024-01-31 23:59:59 + 1 month = 2024-03-02 *)
+  /\ add_months 1700000000 24 = 1763158400 /\ add_months 1700000000 0 = 1700000000.
+Proof. vm_compute. repeat split; reflexivity. Qed.
